@@ -8,7 +8,9 @@ use crate::verif_support::*;
 use std::borrow::Cow;
 
 macro_rules! windows_match {
-    ($name:ident, $ty:ty, $k:expr, $l:expr, $unw:expr) => {
+    (@restart yes, $n:ident, $r:ident) => { kani::cover!($n >= 2 && $r, "a window was rebuilt after rolling into an N"); };
+    (@restart no, $n:ident, $r:ident) => { let _ = $r; };
+    ($name:ident, $ty:ty, $k:expr, $l:expr, $unw:expr, $restart:tt) => {
         #[kani::proof]
         #[kani::unwind($unw)]
         fn $name() {
@@ -45,7 +47,7 @@ macro_rules! windows_match {
                 s += 1;
             }
             assert!(cur.is_none(), "extra window");
-            if 2 * k + 1 <= L { kani::cover!(n_windows >= 2 && saw_restart, "a window was rebuilt after rolling into an N"); }
+            windows_match!(@restart $restart, n_windows, saw_restart);
             kani::cover!(n_windows >= 1 && is_n(seq[0]), "first window starts after a leading N");
             kani::cover!(n_windows >= 2 && rc, "two consecutive windows, strands merged");
             kani::cover!(n_windows == 1 && len == k, "record of exactly k bases yields its window");
@@ -54,9 +56,9 @@ macro_rules! windows_match {
     };
 }
 
-windows_match!(win_u64_k5_l8, u64, 5, 8, 10);
-windows_match!(win_u64_k7_l10, u64, 7, 10, 12);
-windows_match!(win_u64_k9_l12, u64, 9, 12, 14);
-windows_match!(win_u128_k5_l8, u128, 5, 8, 10);
-windows_match!(win_u128_k7_l10, u128, 7, 10, 12);
-windows_match!(win_u64_k5_l11, u64, 5, 11, 13);
+windows_match!(win_u64_k5_l8, u64, 5, 8, 10, no);
+windows_match!(win_u64_k7_l10, u64, 7, 10, 12, no);
+windows_match!(win_u64_k9_l12, u64, 9, 12, 14, no);
+windows_match!(win_u128_k5_l8, u128, 5, 8, 10, no);
+windows_match!(win_u128_k7_l10, u128, 7, 10, 12, no);
+windows_match!(win_u64_k5_l11, u64, 5, 11, 13, yes);
